@@ -19,7 +19,11 @@ PROP = dict(
           "(in) WebSocket(Socket(fd), role) over one end of a socketpair, fed frames built by an independent RFC 6455 codec (harness/common/ref_ws.h): "
           "both roles, masked and unmasked, mask keys random / zero / with 1-3 zero bytes / single-bit, 1-4 fragments at generated split points "
           "(including empty fragments and 4-byte-misaligned splits), pings and pongs (0-125 bytes) between and inside fragmented messages, minimal and "
-          "non-minimal length forms, stream ended by EOF / empty close / close 1000, delivered at once or in 1/3/7/1000-byte pieces; EVERY length "
+          "non-minimal length forms, stream ended by EOF / empty close / close 1000 / close 1000 with a reason text (the library hands the reason out through receive(): accepted, "
+          "checked like a message), delivered at once or in 1/3/7/1000-byte pieces; a silent peer: one case per worker with a pause of 5.5-6.5 s between two fragments (also with a ping "
+          "before the pause), between two messages or inside a frame while the receiver is in a blocking receive(); EVERY receive() result of every part (message, empty result, "
+          "close reason) is read through every accessor of WebSocketMsg: length(), ByteArray(m), String(m), bool(m)/!m and the C-string view operator*: same bytes, "
+          "terminating NUL at [length()] (ASan sees the over-read of an exactly full array), strlen == length for NUL-free payloads; EVERY length "
           "1..300 and 65495..65576 x roles x masked x 1-4 frames; small generated scripts cut at EVERY byte offset (messages complete before the cut "
           "must arrive intact and in order; what is delivered of the interrupted message must be a prefix of it). "
           "(out) bytes written by send() on a socketpair decoded by the reference codec: FIN, opcode, declared length, minimal length form, mask bit "
